@@ -196,6 +196,18 @@ impl<'a, 'b> PartialEq<Template<'b>> for Template<'a> {
             let ap = &a[ai];
             let bp = &b[bi];
 
+            // Empty text fragments don't contribute anything; skip them
+            // so they can't be mismatched against a hole on the other side
+            if matches!(ap.0, PartKind::Text { ref value } if value.get().is_empty()) {
+                ai += 1;
+                continue;
+            }
+
+            if matches!(bp.0, PartKind::Text { ref value } if value.get().is_empty()) {
+                bi += 1;
+                continue;
+            }
+
             match (&ap.0, &bp.0) {
                 (PartKind::Text { value: ref a }, PartKind::Text { value: ref b }) => {
                     // Compare bytes rather than `str`s; fragment boundaries
